@@ -31,6 +31,7 @@ MANIFEST = {
             "int64 overflow of offsets near 2^63 (out of scope)",
     "technique": "Lean 4 refinement proof (splay tree -> sorted node list -> sparse byte map; invariants, loop inductions) + ASan differential "
                  "run comparing node layout and tree shape + independent byte-map oracle",
+    "engine": "inproc",
 }
 
 PAGE = 4096
